@@ -30,7 +30,7 @@ func main() {
 		return
 	}
 	r := gen.New(gen.Seed())
-	n := gen.Scale(90, 1800)
+	n := gen.Scale(70, 1800)
 	for i := 0; i < n; i++ {
 		history(h, r, i)
 	}
@@ -233,7 +233,14 @@ func history(h *mp.H, r *gen.Rand, idx int) {
 		levelHistory(s)
 		return
 	}
-	g.Env(mp.GenEnv{CapMax: 9, PerMax: 3, LastMax: 4})
+	hh0 := int64(r.Range(1, 40))
+	bt0 := int64(mp.BaseTime + r.Intn(1000))
+	capn := int64(r.Range(3, 12))
+	if r.Chance(1, 10) {
+		capn = int64(r.Range(1, 2))
+	}
+	g.EnvRaw(mp.EnvCfg{Cap: capn, ShMax: capn, Per: int64(r.Range(1, 3)), Last: int64(r.Range(1, 4)), MinFee: minFee, MaxRate: 10000000,
+		Height: hh0, BlkTime: bt0, Now: bt0 + int64(r.Intn(30))})
 	// some initial pool / chain state
 	for i := r.Intn(4); i > 0; i-- {
 		p := s.fresh()
